@@ -61,7 +61,26 @@ func VrfC10Repin() {
 	c.config.DisableRepinning = vrf_nondet_bool("repinning_disabled")
 	// the stored pin
 	stored := vrfExistingPin(vrfCid(0), now, n)
-	vrf_assume(stored.Type == api.DataType)
+	// the kinds of pin a peer can hold: plain data, a shard of a sharded add
+	// (depth 1, may reference the previous shard) and the cluster-DAG root of
+	// one (direct, references its meta pin). Meta pins have no holders.
+	switch vrf_choice("pin_type", 3) {
+	case 0:
+		stored.Type = api.DataType
+	case 1:
+		stored.Type = api.ShardType
+		stored.Mode, stored.MaxDepth = api.PinModeRecursive, 1
+		if vrf_choice("shard_has_reference", 2) == 1 {
+			ref := vrfCid(2)
+			stored.Reference = &ref
+		}
+	case 2:
+		stored.Type = api.ClusterDAGType
+		stored.Mode, stored.MaxDepth = api.PinModeDirect, 0
+		ref := vrfCid(2)
+		stored.Reference = &ref
+	}
+	vrf_note_int("pin_type", int(stored.Type))
 	if vrf_choice("created_by_pin_update", 2) == 1 {
 		stored.PinUpdate = vrfCid(1)
 		if vrf_choice("update_source_still_pinned", 2) == 1 {
@@ -88,7 +107,7 @@ func VrfC10Repin() {
 		vrf_yield()
 	}
 
-	active := !c.config.DisableRepinning && (viaRemoval || (!c.config.FollowerMode && alertName == pingMetricName))
+	active := !c.config.DisableRepinning && !c.config.FollowerMode && (viaRemoval || alertName == pingMetricName)
 	for _, e := range cons.log {
 		vrf_assert(!e.unpin, "C10.repin.never-unpins")
 		vrf_assert(e.pin.Cid.Equals(stored.Cid), "C10.repin.only-pins-of-the-failed-peer")
@@ -118,6 +137,7 @@ func VrfC10Repin() {
 		vrf_assert(vrf_and(got.Name == stored.Name, vrf_and(got.Mode == stored.Mode, got.MaxDepth == stored.MaxDepth)), "C10.repin.options-preserved")
 		vrf_assert(vrf_and(got.ReplicationFactorMin == stored.ReplicationFactorMin, got.ReplicationFactorMax == stored.ReplicationFactorMax), "C10.repin.options-preserved")
 		vrf_assert(got.ExpireAt.Equal(stored.ExpireAt) && vrfMetaEqual(got.Metadata, stored.Metadata) && got.Type == stored.Type, "C10.repin.options-preserved")
+		vrf_assert((got.Reference == nil) == (stored.Reference == nil) && (got.Reference == nil || got.Reference.Equals(*stored.Reference)), "C10.repin.options-preserved")
 		if under {
 			// re-homed: only healthy peers other than the failed one are added
 			for _, a := range got.Allocations {
@@ -131,7 +151,19 @@ func VrfC10Repin() {
 			vrf_assert(vrfPeersEqual(got.Allocations, stored.Allocations), "C10.repin.enough-holders-untouched")
 		}
 	} else {
-		// nothing logged: legitimate only when re-allocation was impossible or unnecessary
+		// nothing logged: legitimate only when re-allocation was impossible or
+		// unnecessary. It is possible when the healthy holders that remain plus the
+		// healthy survivors with a usable metric reach the minimum.
+		cands := 0
+		for i := 0; i < n-1; i++ {
+			if !vrfHasPeer(stored.Allocations, vrfPeerNames[i]) {
+				cands = vrf_ite_int(vrf_and(base.states[i].healthy, base.states[i].numeric), cands+1, cands)
+			}
+		}
+		// (a pin whose expiry has passed is not re-homed: the state sync is about to unpin it)
+		expired := vrf_and(!stored.ExpireAt.IsZero(), stored.ExpireAt.UnixNano() < now)
+		vrf_note_bool("already_expired", expired)
+		vrf_assert(!vrf_and(vrf_and(under, !expired), remaining+cands >= stored.ReplicationFactorMin), "C10.repin.rehomed-when-possible")
 		vrf_reach("C10.repin.end-not-logged")
 	}
 	vrf_reach("C10.repin.end-active")
